@@ -326,7 +326,7 @@ func (nrEngine) Generate(p *sim.Plan, g *sim.Rng) {
 		cfg.CM.Cluster.Enable = nrP(true)
 	}
 	if g.Bool(0.8) {
-		p.FaultRate = []float64{0.02, 0.05, 0.1, 0.2}[g.Intn(4)]
+		p.FaultRate = []float64{0.01, 0.03, 0.06, 0.12}[g.Intn(4)]
 		perm := g.Perm(len(nrFaultKinds))
 		for i, k := 0, g.Range(1, 3); i < k; i++ {
 			p.Faults = append(p.Faults, nrFaultKinds[perm[i]])
